@@ -406,3 +406,36 @@ package keeper
 //@       && has(Pledge, sp) && Pledge[sp].TotalStorage >= param(KeyVstorageThreshold)
 //@       && shareOK(sp, val, sharesToSub, decFromStr(param(KeyShareThreshold)))
 //@   loop L1 invariant -1 <= rangeindex
+
+// GetAllNode: the genesis export of the Node store - every stored record, each exactly as stored
+//@ func (Keeper) GetAllNode(ctx) (list)
+//@   modifies nothing
+//@   ensures [C18.getall.node.stored] forall j int :: 0 <= j && j < len(list) ==> has(Node, list[j].Creator) && Node[list[j].Creator] == list[j]
+//@   ensures [C18.getall.node.complete] forall c string :: has(Node, c) ==> contains(list, Node[c])
+//@   ensures [C18.getall.node.distinct] forall a int, b int :: 0 <= a && a < b && b < len(list) ==> list[a].Creator != list[b].Creator
+//@   loop L1 invariant 0 <= itpos() && itpos() <= itlen() && len(list) == itpos()
+//@   loop L1 invariant forall j int :: 0 <= j && j < len(list) ==> list[j] == rawget(Node, itkey(j)) && itkey(j) == keyof(Node, list[j].Creator)
+//@   loop L1 invariant forall j int :: 0 <= j && j < len(list) ==> contains(list, list[j])
+//@   loop L1 decreases [C02.getall.node.term] itlen() - itpos()
+
+// GetAllPledge: the genesis export of the Pledge store - every stored record, each exactly as stored
+//@ func (Keeper) GetAllPledge(ctx) (list)
+//@   modifies nothing
+//@   ensures [C18.getall.pledge.stored] forall j int :: 0 <= j && j < len(list) ==> has(Pledge, list[j].Creator) && Pledge[list[j].Creator] == list[j]
+//@   ensures [C18.getall.pledge.complete] forall c string :: has(Pledge, c) ==> contains(list, Pledge[c])
+//@   ensures [C18.getall.pledge.distinct] forall a int, b int :: 0 <= a && a < b && b < len(list) ==> list[a].Creator != list[b].Creator
+//@   loop L1 invariant 0 <= itpos() && itpos() <= itlen() && len(list) == itpos()
+//@   loop L1 invariant forall j int :: 0 <= j && j < len(list) ==> list[j] == rawget(Pledge, itkey(j)) && itkey(j) == keyof(Pledge, list[j].Creator)
+//@   loop L1 invariant forall j int :: 0 <= j && j < len(list) ==> contains(list, list[j])
+//@   loop L1 decreases [C02.getall.pledge.term] itlen() - itpos()
+
+// GetAllPledgeDebt: the genesis export of the PledgeDebt store - every stored record, each exactly as stored
+//@ func (Keeper) GetAllPledgeDebt(ctx) (list)
+//@   modifies nothing
+//@   ensures [C18.getall.pledgedebt.stored] forall j int :: 0 <= j && j < len(list) ==> has(PledgeDebt, list[j].Sp) && PledgeDebt[list[j].Sp] == list[j]
+//@   ensures [C18.getall.pledgedebt.complete] forall c string :: has(PledgeDebt, c) ==> contains(list, PledgeDebt[c])
+//@   ensures [C18.getall.pledgedebt.distinct] forall a int, b int :: 0 <= a && a < b && b < len(list) ==> list[a].Sp != list[b].Sp
+//@   loop L1 invariant 0 <= itpos() && itpos() <= itlen() && len(list) == itpos()
+//@   loop L1 invariant forall j int :: 0 <= j && j < len(list) ==> list[j] == rawget(PledgeDebt, itkey(j)) && itkey(j) == keyof(PledgeDebt, list[j].Sp)
+//@   loop L1 invariant forall j int :: 0 <= j && j < len(list) ==> contains(list, list[j])
+//@   loop L1 decreases [C02.getall.pledgedebt.term] itlen() - itpos()
